@@ -13,7 +13,10 @@ RULE = ("seeded streams: grid triangles (multiples of 1/2, power-of-two scale in
         "normals/areas/barycentric weights; exactly coplanar query points (dyadic combinations, many on edges and "
         "vertices) for containment and same-side; sample with draws supplied through a Generator subclass (dyadic "
         "weights with zero entries, u on exact thresholds incl. 0.0, coefficient sums = 1 and > 1), area weights, the "
-        "default generator twice (determinism) and a frequency run; random integer quads/faces; non-trivial = the "
+        "default generator twice (determinism) and a frequency run; in every run a fixed handful: zero samples from 1-3 "
+        "triangles, any count from no triangles (with and without ret_face_indices), and the two argument-kind refusals "
+        "(num_samples=2.0, rng=RandomState), which execute the refusal lines and must raise ValueError (oracle only); "
+        "random integer quads/faces; non-trivial = the "
         "call returned values; distinct by hash of inputs")
 TRUSTED = ["Coq 8.16.1 kernel, vm_compute for the correspondence evaluation",
            "axioms (Print Assumptions): ClassicalDedekindReals.sig_forall_dec, sig_not_dec, "
@@ -275,8 +278,25 @@ def _coplanar_point(rng, t):
     return [t[0][j] + s * (t[1][j] - t[0][j]) + u * (t[2][j] - t[0][j]) for j in range(3)]
 
 
+def _fixed_handful(rng):
+    """in every run: zero samples from 1-3 non-degenerate triangles (supplied and area weights), any count from no
+    triangles at all (both exercised with and without ret_face_indices), and the two argument-kind refusals"""
+    out = []
+    for k in (1, 2, 3):
+        ts = [_tri(rng, 1.0) for _ in range(k)]
+        out.append({"kind": "sample_weights", "exact": True, "tris": ts, "weights": [1.0] * k, "us": [], "abs": []})
+        out.append({"kind": "sample_area", "exact": True, "dec": [], "tris": ts, "weights": None, "us": [], "abs": []})
+    for count in (0, 3):
+        out.append({"kind": "sample_no_triangles", "exact": True, "dec": [], "tris": [], "weights": None, "us": [], "abs": [], "n": count})
+    ts = [_tri(rng, 1.0)]
+    out.append({"kind": "sample_refusal", "what": "num_samples_float", "tris": ts})
+    out.append({"kind": "sample_refusal", "what": "rng_not_generator", "tris": ts})
+    return out
+
+
 def gen_cases(rng, n, tier):
-    cases = []
+    cases = _fixed_handful(rng)
+    n = max(0, n - len(cases))
     for i in range(n):
         r = rng.random()
         scale = _scale(rng, tier)
@@ -385,10 +405,11 @@ def gen_cases(rng, n, tier):
 
 
 INT_KINDS = ("normals", "bary", "contains", "same_side", "sample_weights", "sample_area", "sample_area_some_draws_undecided")
-SAMPLE_FIXED = ("sample_weights", "sample_area", "sample_area_some_draws_undecided", "sample_all_degenerate")
+SAMPLE_FIXED = ("sample_weights", "sample_area", "sample_area_some_draws_undecided", "sample_all_degenerate",
+                "sample_no_triangles")
 # theorems that only restate the shape of the model (reported separately by the driver)
 DEFINITIONAL = ["C15_normal_is_cross", "C15_stacked_is_map_single", "C15_bary_pairs_is_map_single",
-                "C15_contains_is_three_same_side"]
+                "C15_contains_is_three_same_side", "C15_bary_integer_arrays"]
 
 
 def _decided_draws(ts, us):
@@ -457,7 +478,7 @@ def run_impl(c):
         if kind in SAMPLE_FIXED:
             ts = _arr(c["tris"], c, (-1, 3, 3))
             ws = None if c["weights"] is None else np.array(c["weights"], dtype=np.float64)
-            m = len(c["us"])
+            m = c.get("n", len(c["us"]))
 
             def draws():
                 return FixedDraws([np.array(c["us"], dtype=np.float64), np.array(c["abs"], dtype=np.float64).reshape(-1)])
@@ -467,6 +488,13 @@ def run_impl(c):
                 only_pts = sample(ts, m, rng=draws(), weights=ws)
             return {"points": pts.tolist(), "faces": [int(x) for x in fi],
                     "points_only_same": bool(np.array_equal(only_pts, pts))}
+        if kind == "sample_refusal":
+            ts = _tris(c["tris"])
+            if c["what"] == "num_samples_float":
+                r = sample(ts, 2.0)
+            else:
+                r = sample(ts, 2, rng=np.random.RandomState(0))
+            return {"shape": list(np.asarray(r).shape)}
         if kind in ("sample_default", "sample_frequency"):
             ts = _tris(c["tris"])
             ws = None if c["weights"] is None else np.array(c["weights"], dtype=np.float64)
@@ -526,10 +554,12 @@ def coq_case(c, o):
     if kind in SAMPLE_FIXED:
         ws = "None" if c["weights"] is None else "(Some %s)" % coq_list(q(w) for w in c["weights"])
         obs = ("(Raise %s)" % o["raise"]) if raised else "(Ok (%s, %s))" % (_vecs(o["points"]), coq_list(coq_nat(i) for i in o["faces"]))
-        dec = c.get("dec") or [True] * len(c["us"])
+        dec = c["dec"] if "dec" in c else [True] * len(c["us"])
         return "CSample %s %s %s %s %s %s" % (
             coq_list(coq_bool(d) for d in dec), coq_list(_tri_q(t) for t in c["tris"]), ws, coq_list(q(u) for u in c["us"]),
             coq_list("(%s, %s)" % (q(a), q(b)) for a, b in c["abs"]), obs)
+    if kind == "sample_refusal":
+        return "COracleOnly"  # argument-kind refusals are not part of the model: judged by the oracle only
     if raised:
         return BAD
     if kind == "normals":
@@ -811,6 +841,12 @@ def _edges_oracle(c, o):
 
 def oracle(c, o):
     kind = c["kind"]
+    if kind == "sample_refusal":
+        # a non-int sample count / a non-Generator rng must be refused with ValueError (the code's documented argument
+        # types; functions.py raises it explicitly)
+        if isinstance(o, dict) and "raise" in o:
+            return None if o["raise"] == "ValueError" else "%s: refused with %s instead of ValueError" % (c["what"], o["raise"])
+        return "%s: accepted (returned shape %r) instead of raising ValueError" % (c["what"], o["shape"])
     if isinstance(o, dict) and "raise" in o:
         if kind == "sample_all_degenerate":
             return None  # total weight 0: outside the property's domain (needs a positive weight)
@@ -821,7 +857,7 @@ def oracle(c, o):
         return _bary_oracle(c, o)
     if kind in ("contains", "same_side"):
         return _contains_oracle(c, o)
-    if kind in ("sample_weights", "sample_area", "sample_area_some_draws_undecided"):
+    if kind in ("sample_weights", "sample_area", "sample_area_some_draws_undecided", "sample_no_triangles"):
         return _sample_fixed_oracle(c, o)
     if kind == "sample_all_degenerate":
         return None
